@@ -218,5 +218,8 @@ func init() {
 	extendProp("C08", "pool-typestate: the token pool never hands out one object twice; free-floating and ordinary tokens share the pool, so with an aliased slot the token that is overwritten depends on how many whitespace and comment tokens precede it (seed C08-6).",
 		[]report.Floor{{Rule: "pool-typestate", What: "pools", Min: 2}},
 		func(c *Ctx) { c.poolRule() })
+	extendProp("C01", "mark-flow: cursor positions the generated scanner keeps in locals of Lex between transitions (lblStart, lblEnd of the heredoc opener) are, at every action that reads them, recorded on every path of the automaton since the token began, in order (lblStart <= lblEnd, the cursor only moving forward in between) and inside the token - a forward must-analysis over the transition system. idx-guard discharges the slice lex.data[lblStart:lblEnd] and the index lex.data[lblStart-1] from it instead of from a reviewed exception (seed C01-10: the CR transitions of two states of the label machine exchanged, lblEnd never recorded in CRLF files, slice bounds out of range).",
+		[]report.Floor{{Rule: "mark-flow", What: "marks", Min: 2}, {Rule: "mark-flow", What: "uses", Min: 2}},
+		func(c *Ctx) { defer c.cleanup(); c.scanRun("mark-flow") })
 	properties["PO"] = &Property{Level: "other", Run: func(c *Ctx) { defer c.cleanup(); c.presenceOracle() }}
 }
